@@ -18,6 +18,11 @@
 // answer there is judged by a logical deadlock witness (probes + goroutine dump) instead of the
 // single-request reproduction. One of those nodes is a -race build whose data race reports are
 // recorded as observations.
+//
+// Another slice (txshape.go) receives structure-aware malformed transactions on every endpoint that
+// takes an encoded transaction: encoded consistently by the harness itself from outputs the node knows
+// and its wallets own, with arrays that disagree (signatures vs inputs, repeated inputs, no outputs),
+// combined with the wallet id / password / sign_indexes variations. Same oracle per request.
 package main
 
 import (
@@ -731,9 +736,10 @@ func main() {
 		return
 	}
 
-	onlyConc := os.Getenv("C28_LEGS") == "conc" // development aid: the concurrent leg alone (the floors of the other legs then fail)
+	onlyConc := os.Getenv("C28_LEGS") == "conc"                                      // development aid: the concurrent leg alone (the floors of the other legs then fail)
+	onlyShape := os.Getenv("C28_LEGS") == "shape" || os.Getenv("C28_LEGS") == "none" // development aid: the structure-aware transaction leg alone ("none": only the worlds are built; "noshape": everything but that leg)
 	slowDone := make(chan struct{})
-	if onlyConc {
+	if onlyConc || onlyShape {
 		close(slowDone)
 	} else {
 		go h.slowProbe(slowDone)
@@ -763,16 +769,30 @@ func main() {
 		}
 		cjobs = append(cjobs, cj)
 	}
+	if onlyShape {
+		cjobs = nil
+	}
 	concDone := make(chan struct{})
 	go func() {
 		defer close(concDone)
 		vf.Parallel(len(cjobs), 3, func(i int) { h.runConc(cjobs[i]) })
 	}()
-	if onlyConc {
+	if onlyConc || onlyShape {
 		jobs = nil
 	}
+	// the structure-aware transaction leg (txshape.go), on nodes of its own as well
+	var sjobs []shapeJob
+	if legs := os.Getenv("C28_LEGS"); !onlyConc && legs != "noshape" && legs != "none" {
+		sjobs = h.shapeJobs()
+	}
+	shapeDone := make(chan struct{})
+	go func() {
+		defer close(shapeDone)
+		vf.Parallel(len(sjobs), r.Pick(4, 6), func(i int) { h.runShapes(sjobs[i]) })
+	}()
 	vf.Parallel(len(jobs), r.Pick(12, 14), func(i int) { h.runJob(jobs[i]) })
 	<-concDone
+	<-shapeDone
 	<-slowDone
 
 	// coverage
@@ -822,6 +842,9 @@ func main() {
 		r.Extra("data_race_report_texts", raceText)
 	}
 	raceMu.Unlock()
+	shapeStats.mu.Lock()
+	r.Extra("txshape_answers (endpoint, status, answer shape -> count)", shapeStats.answers)
+	shapeStats.mu.Unlock()
 
 	r.Floor("requests", int64(r.Pick(25000, 350000)))
 	r.Floor("requests.world_genesis", int64(r.Pick(5000, 80000)))
@@ -841,12 +864,27 @@ func main() {
 	r.Floor("conc.read_only_200", int64(r.Pick(1500, 18000)))
 	r.Floor("conc.read_overlapping_state_change", int64(r.Pick(1500, 25000)))
 	r.Floor("conc.max_requests_in_flight_on_one_node", int64(kConc-2))
+	// structure-aware transaction leg: the shapes were sent, to all three endpoints, and the world behind them is
+	// real (some of the well-formed ones were signed by the addressed wallet, verified and accepted into the pool)
+	r.Floor("txshape.jobs", int64(len(sjobs)))
+	r.Floor("txshape.requests", int64(r.Pick(3500, 40000)))
+	r.Floor("txshape.sign.fewer_sigs_than_inputs", int64(r.Pick(350, 3000)))
+	r.Floor("txshape.sign.more_sigs_than_inputs", int64(r.Pick(800, 6000)))
+	r.Floor("txshape.sign.no_sigs", int64(r.Pick(150, 1000)))
+	r.Floor("txshape.verify.fewer_sigs_than_inputs", int64(r.Pick(100, 800)))
+	r.Floor("txshape.inject.fewer_sigs_than_inputs", int64(r.Pick(100, 500)))
+	r.Floor("txshape.sign.status_200", int64(r.Pick(15, 60)))
+	r.Floor("txshape.sign_200.source_wallet", int64(r.Pick(10, 40)))
+	r.Floor("txshape.verify.status_200", 10)
+	r.Floor("txshape.inject.status_200", 5)
+	r.Floor("txshape.sign_unlocking_an_encrypted_wallet", int64(r.Pick(40, 300)))
 	cleanup()
 	r.Finish("per node instance: the minimal valid request of every endpoint, then a seeded stream of grammar-generated requests (typed dictionaries per documented parameter: valid / unknown / boundary / malformed), mutations of earlier successful requests and syntactically valid junk; two prepared nodes (30-block chain with pool and wallets; height 0 with a pooled transaction); non-trivial = distinct (method, route, status, answer shape)",
 		"decimal exponents in the stream are capped at |e| <= 5000; one dedicated probe per run sends 1e2000000000 alone to an idle node against a 60 s bound with a 3 GiB memory guard",
 		"cost-proportional count parameters (wallet newAddress num, scan) only take small or unparsable values, and encrypting an unencrypted wallet (default scrypt N=2^20, ~1 GiB per call) is exercised on one node in the thorough tier only: heavy but legitimate work is not judged",
 		"sequential leg: a watchdog (90 s without answer) never decides by itself: the single request must reproduce on a fresh idle node against 120 s",
 		"concurrent leg: K clients per node send at the same time, 45% state-changing (wallet update/newAddress/create/encrypt/decrypt/scan/unload, injectTransaction, storage) and 55% reading requests, four fifths of them well formed and addressed to four wallets; a relative watchdog (500 x the node's median latency, at least 20 s) only starts the procedure: a hang is reported on the logical deadlock witness (lock-free probe answered, probe of the stuck component silent, >= 2 requests still outstanding, goroutine dump with >= 2 request-serving goroutines of src/api|visor|wallet|kvstorage|daemon blocked on a lock and none of those components running, runnable or in a syscall); anything else is inconclusive",
+		"structure-aware transaction leg: on nodes of their own, every endpoint that takes an encoded transaction (wallet/transaction/sign, transaction/verify, injectTransaction) receives transactions assembled and encoded by the harness (own encoder: exact length prefix, inner hash and array counts; inputs that are unspent and owned by a loaded wallet or a harness key, spent long ago, or unknown; signatures of the real owners where the harness has the key) whose arrays disagree: 0/1/2/3/repeated inputs x 0..n+3 signatures x all null / all present / first / last present, ordinary / no / repeated / zero-coin outputs, correct / wrong header; the signing endpoint combines each with the owning wallet and every meaningful sign_indexes list, needless / missing / wrong passwords, another plain wallet, an encrypted one, one that cannot sign and an unknown id; requests that unlock an encrypted wallet (one key derivation each) are thinned out",
 		"encrypt/decrypt in the concurrent leg only name wallets created encrypted with the node's cheap crypto type; data race reports of the -race node are recorded as observations and attached to a violation they coincide with, not judged",
 		"JSON well-formedness is required of 200 answers only (README: error bodies may not be JSON)",
 		"nodes are assembled by lib/node like skycoin.Coin.Run; MaxLastBlocksCount is 0 there, so /api/v1/last_blocks only answers for num=0")
